@@ -110,6 +110,11 @@ def handle (toks : List String) : String :=
   | "packs" :: _ => (handlePacks toks).getD "bad-op"
   | "live" :: _ => (DriverLive.handle toks).getD "bad-op"
   | "live.calls" :: _ => (DriverLive.handle toks).getD "bad-op"
+  | "live.adopt" :: _ => (DriverLive.handle toks).getD "bad-op"
+  | ["status.legal", a, b] =>
+    (match (if a = "-" then some none else (Status.ofName? a).map some), Status.ofName? b with
+     | some s, some t => if Status.legalStep s t then "T" else "F"
+     | _, _ => "bad-op")
   | "bdq" :: _ => (DriverBetdaq.handle toks).getD "bad-op"
   | "dispatch" :: _ => (DriverDispatch.handle toks).getD "bad-op"
   | "dispatch.close" :: _ => (DriverDispatch.handle toks).getD "bad-op"
